@@ -7,11 +7,13 @@
   (c) algebra of the specification `Cond.eval`, for all environments
   (d) compile_correct: code emitted by the grammar actions, run on the VM model, computes `eval` (fragments)
   (e) the string operators: sizedstr.c (Gen.SizedStr, REGENERATED) = the byte-list specification, for all byte lists
+  (f) the match-list opcodes: exec.c (Gen.MatchOps, REGENERATED) = what the VM model computes on (offset, length) views
 -/
 import YaraModel.Gen.Precedence
 import YaraModel.Lemmas.Cond
 import YaraModel.Lemmas.CondExecAll
 import YaraModel.Lemmas.SizedStr
+import YaraModel.Lemmas.MatchOps
 namespace YaraModel.Cond
 open YaraModel YaraModel.C YaraModel.CondVm YaraModel.CondCompile YaraModel.Gen.VmOps YaraModel.Gen.Precedence
 
@@ -351,6 +353,37 @@ theorem vm_string_prims_are_sizedstr (a b : Int) :
   have h := string_order_model_is_spec_partial (decSS a) (decSS b) ha hb
   refine ⟨by rw [pp_lt, h]; simp [cmpStr, cmpInt], by rw [pp_le, h]; simp [cmpStr, cmpInt],
     by rw [pp_gt, h]; simp [cmpStr, cmpInt], by rw [pp_ge, h]; simp [cmpStr, cmpInt]⟩
+
+/-! ## (f) the match-list opcodes of exec.c as regenerated = the VM model's `step` on the (offset, length) views -/
+
+/-- OP_FOUND, OP_COUNT, OP_FOUND_AT, OP_FOUND_IN, OP_COUNT_IN, OP_OFFSET, OP_LENGTH are inside the translated fragment -/
+theorem matchops_translated : YaraModel.Gen.MatchOps.unparsed = [] := rfl
+
+open YaraModel.MatchCore YaraModel.Gen.MatchOps in
+/-- For every match list sorted by offset (scan.c inserts in order; C01) whose offsets / lengths are not the sentinel:
+    the loops of exec.c — which YR_MATCH field they read (`match_length`, not `data_length`; `base + offset`), the 1-based
+    index counting, the inclusive range tests and the early `break`s — compute exactly the values `CondVm.step` pushes
+    for `$a`, `#a`, `$a at x`, `$a in (lo..hi)`, `#a in (lo..hi)`, `@a[x]`, `!a[x]` on the list of (offset, length) views,
+    for matches of any length and any number of matches. -/
+theorem match_ops_model_is_spec (ms : List MatchRec) (x lo hi : Int) (hs : Sorted ms)
+    (hd : ∀ m, m ∈ ms → (view m).1 ≠ C.UNDEF ∧ (view m).2 ≠ C.UNDEF) :
+    OP_FOUND ms = C.b2i (!(ms.map view).isEmpty) ∧
+    OP_COUNT ms = ((ms.map view).length : Int) ∧
+    OP_FOUND_AT ms x = (if isU x then C.UNDEF else C.b2i ((ms.map view).any fun m => m.1 == x)) ∧
+    OP_FOUND_IN ms lo hi = (if isU lo || isU hi then C.UNDEF else C.b2i ((ms.map view).any (inRange lo hi))) ∧
+    OP_COUNT_IN ms lo hi = (if isU lo || isU hi then C.UNDEF else (((ms.map view).countP (inRange lo hi) : Nat) : Int)) ∧
+    OP_OFFSET ms x = (if isU x then C.UNDEF else nthOff (ms.map view) x) ∧
+    OP_LENGTH ms x = (if isU x then C.UNDEF else nthLen (ms.map view) x) :=
+  ⟨found_eq ms, count_eq ms, found_at_eq ms x hs, found_in_eq ms lo hi hs, count_in_eq ms lo hi hs,
+   offset_eq ms x (fun m hm => (hd m hm).1), length_eq ms x (fun m hm => (hd m hm).2)⟩
+
+open YaraModel.MatchCore YaraModel.Gen.MatchOps in
+/-- non-vacuity, and the situation of seeded defect C04-m1: a 700-byte match keeps its length although only 512 bytes
+    of match data are stored -/
+example : OP_LENGTH [⟨0, 3, 700, 512⟩, ⟨0, 900, 2, 2⟩] 1 = 700 ∧ OP_OFFSET [⟨0, 3, 700, 512⟩, ⟨0, 900, 2, 2⟩] 2 = 900 ∧
+    OP_COUNT_IN [⟨0, 3, 700, 512⟩, ⟨0, 900, 2, 2⟩] 3 899 = 1 ∧ Sorted [⟨0, 3, 700, 512⟩, ⟨0, 900, 2, 2⟩] := by
+  refine ⟨by decide, by decide, by decide, ?_⟩
+  simp [Sorted, view, C.add, C.wrap]
 
 /-! ## (d) compile_correct -/
 
